@@ -21,9 +21,11 @@ import os, json, re, concurrent.futures as cf
 import vf
 
 SPECDIR = os.path.join(vf.SPEC, "storage")
-ALL_KINDS = ["set", "setx", "rm", "exp", "per", "batch", "clear", "rmp", "compact", "reopen"]
+ALL_KINDS = ["set", "setx", "rm", "exp", "per", "batch", "clear", "rmp", "compact", "reopen", "tick"]
+NOTICK_KINDS = [k for k in ALL_KINDS if k != "tick"]
+TTL_KINDS = ["setx", "exp", "per", "compact", "reopen", "tick"]      # expiry changes around compaction and the clock jump
 KV_ACTIONS = ["Call", "Ret", "StepAppend", "StepWriteTmp", "StepRename", "StepCloseLog", "StepTruncLog", "StepOpenAppend",
-              "CrashBetween", "CrashInAppend", "CrashInWriteTmp", "CleanClose", "Reopen"]
+              "CrashBetween", "CrashInAppend", "CrashInWriteTmp", "CleanClose", "Reopen", "TimePasses"]
 JS_ACTIONS = ["JSet", "JRm", "CallFlush", "RetFlush", "StepOpenTmp", "StepWriteTmp", "StepRename", "CrashBetween",
               "CrashInWrite", "CleanClose", "Reopen"]
 # model file operation -> the calls the interposer sees for it (CloseLog = fclose: not a mutating call)
@@ -35,7 +37,7 @@ def kv_module(ck, name, **const):
     d = os.path.join(ck.work, name)
     os.makedirs(d, exist_ok=True)
     c = dict(NK=2, NV=2, NE=1, MaxOps=3, MaxCrash=2, Dev_TornTailNotTruncated=False, Dev_TruncLogBeforeRename=False,
-             Emit=False)
+             Dev_SnapshotExpiryCheckedEarly=False, Emit=False)
     kinds = const.pop("kinds", ALL_KINDS)
     invs = const.pop("invariants", ["Inv_Recovered", "Inv_MemIsBase", "Inv_Files"])
     c.update(const)
@@ -98,6 +100,8 @@ def cex_history(r):
             else: ops.append(t)
         elif name == "CleanClose":
             ops.append("reopen")
+        elif name == "TimePasses":
+            ops.append("tick")
         elif name == "JSet":
             ops.append("jset %d %d" % (ctx["k"], ctx["v"]))
         elif name == "JRm":
@@ -120,14 +124,25 @@ def run(ck):
     thorough = ck.tier == "thorough"
     ck.make("drv_kvcrash")
     ck.rule = ("histories = operation sequences printed by TLC from KvLog.tla / JsonFile.tla in generator mode (all "
-               "2-operation histories, seeded simulation for 4-5 operations, counterexamples of the Dev_* self-tests); for "
+               "2-operation histories incl. the clock jump `tick`, seeded simulation for 4-5 operations, all 4-step TTL / "
+               "expireAt / persist / compact / reopen / tick histories over one key, counterexamples of the Dev_* self-tests); for "
                "each history the driver takes an image of the store directory after every intercepted file-system call "
                "and at byte cuts inside every write, recovers each image with a fresh store and continues; a case is "
                "non-trivial when a crash hit an operation in flight (torn record, half-done compaction or flush)")
     # ------------------------------------------------------------------ 1. model checking, self-tests, generators
     jobs = []
-    mod, cfg = kv_module(ck, "mc", MaxOps=4 if thorough else 3)
-    jobs.append(("kv_mc", mod, cfg, dict(workers=8 if thorough else 6, coverage=True, timeout=1500)))
+    mod, cfg = kv_module(ck, "mc", MaxOps=3)
+    jobs.append(("kv_mc", mod, cfg, dict(workers=6, coverage=True, timeout=1500)))
+    if thorough:
+        mod, cfg = kv_module(ck, "mc4", MaxOps=4, kinds=NOTICK_KINDS)
+        jobs.append(("kv_mc4", mod, cfg, dict(workers=8, timeout=2400)))
+        mod, cfg = kv_module(ck, "mcT", MaxOps=6, kinds=TTL_KINDS, NK=1, NV=1, NE=2)
+        jobs.append(("kv_mcT", mod, cfg, dict(workers=4, timeout=2400)))
+    mod, cfg = kv_module(ck, "dev_snap", kinds=TTL_KINDS, NK=1, NV=1, NE=2, MaxOps=5, MaxCrash=1,
+                         Dev_SnapshotExpiryCheckedEarly=True, invariants=["Inv_Recovered"])
+    jobs.append(("kv_dev_snap", mod, cfg, dict(workers=1, dump_trace=os.path.join(ck.work, "cex_snap.json"))))
+    mod, cfg = kv_module(ck, "genT", kinds=TTL_KINDS, NK=1, NV=1, NE=2, MaxOps=4, MaxCrash=0, Emit=True, invariants=["EmitInv"])
+    jobs.append(("kv_genT", mod, cfg, dict(workers=2)))
     mod, cfg = kv_module(ck, "dev_torn", Dev_TornTailNotTruncated=True, invariants=["Inv_Recovered"])
     jobs.append(("kv_dev_torn", mod, cfg, dict(workers=1, dump_trace=os.path.join(ck.work, "cex_torn.json"))))
     mod, cfg = kv_module(ck, "dev_order", Dev_TruncLogBeforeRename=True, invariants=["Inv_Recovered"])
@@ -152,7 +167,9 @@ def run(ck):
         ck.states += r.distinct
         ck.transitions += r.generated
         ck.note("TLC %s: %s" % (tag, r.summary()))
-    for tag in ("kv_mc", "js_mc"):
+    for tag in ("kv_mc", "js_mc", "kv_mc4", "kv_mcT"):
+        if tag not in res:
+            continue
         r = res[tag]
         for a, (tk, gn) in r.coverage.items():
             ck.cov[a] = ck.cov.get(a, 0) + gn
@@ -166,7 +183,7 @@ def run(ck):
     ck.exhaustive = True
     probes = []
     for tag, what in (("kv_dev_torn", "Dev_TornTailNotTruncated"), ("kv_dev_order", "Dev_TruncLogBeforeRename"),
-                      ("js_dev", "Dev_JsonSaveTruncatesInPlace")):
+                      ("kv_dev_snap", "Dev_SnapshotExpiryCheckedEarly"), ("js_dev", "Dev_JsonSaveTruncatesInPlace")):
         r = res[tag]
         if r.violated != "Inv_Recovered":
             raise vf.Infra("self-test: Impl with %s = TRUE must violate Inv_Recovered, got %r" % (what, r.violated))
@@ -180,11 +197,16 @@ def run(ck):
     pairs = hist_lines(res["kv_gen2"])
     longs = hist_lines(res["kv_gen5"])
     jhist = hist_lines(res["js_gen"])
-    if len(pairs) < 400 or len(longs) < 20 or len(jhist) < 100:
-        raise vf.Infra("generator produced too few histories: %d pairs, %d long, %d json" % (len(pairs), len(longs), len(jhist)))
+    ttlh = {h: f for h, f in hist_lines(res["kv_genT"]).items() if "tick" in h and ("setx" in h or "exp" in h)}
+    if len(pairs) < 400 or len(longs) < 20 or len(jhist) < 100 or len(ttlh) < 300:
+        raise vf.Infra("generator produced too few histories: %d pairs, %d long, %d json, %d ttl/clock" % (
+            len(pairs), len(longs), len(jhist), len(ttlh)))
     expect = {}
     expect.update(pairs)
     expect.update(longs)
+    expect.update(ttlh)
+    ttl_list = sorted(ttlh)
+    rng.shuffle(ttl_list)
     pair_list = sorted(pairs)
     long_list = sorted(longs)
     j_list = sorted(jhist)
@@ -205,10 +227,12 @@ def run(ck):
         a_cases += [("json", h) for h in j_list[:150]]
         b_cases = [("kv maxlog=0 big=0", h) for h in (interesting[:12] + long_list[:12])] + [("json", h) for h in j_list[:10]]
         c_cases = [("kv maxlog=0 big=1", h) for h in long_list[:16]]
+    t_cases = [("kv maxlog=0 big=0", h) for h in (ttl_list if thorough else ttl_list[:260])]
     a_cases = [(c, h) for c, h, _ in probes] + a_cases
     b_cases = [(c, h) for c, h, _ in probes] + b_cases
     runs = [("A", a_cases, 1, "all", "spread", 200000), ("B", b_cases, 2, "all" if thorough else "spread", "spread", 60000),
-            ("C", c_cases, 1, "spread", "spread", 200000)]
+            ("C", c_cases, 1, "spread", "spread", 200000),
+            ("T", t_cases, 1, "all" if thorough else "spread", "spread", 200000)]
     totals = dict(jobs=0, distinct=0, nontrivial_distinct=0, level1=0, level2=0, cut_images=0, dropped=0)
     traces = []
     for name, cases, depth, cuts1, cuts2, cap in runs:
